@@ -811,9 +811,22 @@ class WellFormed(Monitor):
                               '%s returned a malformed signature: %s' % (point, problems[0][1]),
                               dict(w, result=repr(value)), rp)
         # downgraded run
+        variants = []
         if all(isinstance(s, S.UpgradedSignature) for s in sig_args):
+            variants.append(None)                       # every signature downgraded
+            if len(sig_args) >= 2:
+                # ... and only ONE of them, at a position that moves on from event to event (mixed inputs)
+                self._mixed = getattr(self, '_mixed', 0) + 1
+                if self._mixed % 2 == 0:
+                    variants.append((self._mixed // 2) % len(sig_args))
+        for only in variants:
             orig = monitor.original(point)
-            dargs = tuple(plain_copy(a) if isinstance(a, S.UpgradedSignature) else a for a in args)
+            positions = [i for i, a in enumerate(args) if isinstance(a, S.UpgradedSignature)]
+            chosen = set(positions) if only is None else {positions[only]}
+            dargs = tuple(plain_copy(a) if i in chosen else a for i, a in enumerate(args))
+            if only is not None:
+                ctx.count('C15.mixed_downgraded_runs')
+                w = dict(w, downgraded_input_only=only)
             with warnings.catch_warnings(record=True) as caught:
                 warnings.simplefilter('always')
                 try:
